@@ -73,6 +73,9 @@ SlotErr(t, s, p, dn, rg) ==
                  THEN Err("ProducersFirst", <<at, a>>, dn[a], w)
             ELSE IF \E j \in 1..Len(w) : w[j].seq >= 0 /\ rg[a][(w[j].seq % t.buf[a]) + 1] # w[j].seq
                  THEN Err("BufferHoldsScheduledMessage", <<at, a, t.buf[a]>>, w, rg[a])
+            \* an entry with a negative sequence number is read at (-1 mod size): that slot must still hold the default output
+            ELSE IF \E j \in 1..Len(w) : w[j].seq < 0 /\ rg[a][((-1) % t.buf[a]) + 1] # -1
+                 THEN Err("BufferHoldsDefaultForNegative", <<at, a, t.buf[a]>>, w, rg[a])
             ELSE NoErr
       RECURSIVE InsErr(_)
       InsErr(S) == IF S = {} THEN NoErr ELSE LET a == CHOOSE x \in S : TRUE IN
